@@ -417,3 +417,25 @@ Definition oversized (cap : N) (l : list N) : bool :=
   end.
 
 Definition bytes_ok (l : list N) : bool := forallb (fun b => b <? 256) l.
+
+(* `l` starts with one complete length-prefixed frame carrying `p`, followed by `rest` *)
+Definition framed (l p rest : list N) : Prop :=
+  exists b0 b1 b2 b3, l = b0 :: b1 :: b2 :: b3 :: p ++ rest /\ be32 b0 b1 b2 b3 = blen p.
+
+(* the client's view (no cap): fewer than 4 header bytes, or fewer payload bytes than the header announces *)
+Definition cut_short (l : list N) : bool :=
+  match l with
+  | b0 :: b1 :: b2 :: b3 :: r => blen r <? be32 b0 b1 b2 b3
+  | _ => true
+  end.
+
+(* a frame on the wire as (header, payload) *)
+Definition wframe := (list N * list N)%type.
+Definition wire (f : wframe) : list N := fst f ++ snd f.
+Definition wf_wframe (cap : N) (f : wframe) : Prop :=
+  exists b0 b1 b2 b3, fst f = [b0; b1; b2; b3] /\ be32 b0 b1 b2 b3 = blen (snd f) /\ blen (snd f) <= cap.
+Definition flat (fs : list wframe) : list N := concat (map wire fs).
+
+(* the bytes connection `id` received, in arrival order *)
+Definition conn_bytes (evs : list (N * list N)) (id : N) : list N :=
+  concat (map snd (filter (fun ev => fst ev =? id) evs)).
